@@ -118,15 +118,23 @@ def run_case(case):
             argv = ['--src-exclude', path]
         if rng.random() < .25 and kind in ('plid', 'src', 'srcex'):
             argv.append('-r')
+        # the same look-up shown as hex dumps (-x): the PELs found are the same ones
+        hexm = rng.random() < .25
+        if hexm:
+            argv.insert(rng.choice([0, len(argv)]), rng.choice(['-x', '--hex']))       # before or behind the look-up
         res = seams.run_cli(['-p', d] + argv)
         out = res['out'] or ''
         rec = dict(family='C10', shape_ok=True, files=fattrs, q=q, result=[], shown=[], not_found=False,
                    exit=res['exit'] if not res['uncaught'] else 99, argv=argv[:2])
         try:
             if kind in ('plid', 'src', 'srcex'):
-                rec['result'] = [e['eid'] for e in dirrun.list_entries(out)]
+                rec['result'] = dirrun.hex_ids(out) if hexm else [e['eid'] for e in dirrun.list_entries(out)]
             else:
                 if out.strip() == 'PEL not found':
+                    rec['not_found'] = True
+                elif hexm and out.strip():
+                    rec['shown'] = dirrun.hex_ids(out)
+                elif out.strip() == 'PEL not found':
                     rec['not_found'] = True
                 elif out.strip() == '':
                     pass
